@@ -631,6 +631,13 @@ func run(seed uint64, idx, n int, cfg *Cfg, ops []Op, cnt *Counters) (out runOut
 			if len(m) > 160 {
 				m = m[:160]
 			}
+			if op.Kind == "block" {
+				for d := 0; d < nMkt; d++ {
+					if prev.tbor[d].Sign() != 0 && new(big.Int).Add(prev.bal[hardAcc][d], prev.tbor[d]).Cmp(prev.tres[d]) == 0 {
+						m += fmt.Sprintf(" [%s: cash %s + borrowed %s = reserves %s]", denoms[d], prev.bal[hardAcc][d], prev.tbor[d], prev.tres[d])
+					}
+				}
+			}
 			out.notes = append(out.notes, op.Kind+": "+m)
 		}
 		w.countSplits(op, cls, pre, prev, after, out.splits, cnt)
